@@ -5,7 +5,6 @@ import (
 	"bytes"
 	"fmt"
 	"regexp"
-	"slices"
 	"sort"
 	"text/tabwriter"
 
@@ -61,12 +60,17 @@ func (rl *ReferrerList) Add(m manifest.Manifest) error {
 		return fmt.Errorf("invalid manifest for referrer \"%t\": %w", m.GetOrig(), errs.ErrUnsupportedMediaType)
 	}
 	// append descriptor to index
-	rlM.Manifests = append(rlM.Manifests, mDesc)
-	rl.Descriptors = rlM.Manifests
-	err := rl.Manifest.SetOrig(rlM)
+	// build a new list and a new manifest instead of changing the current manifest in place,
+	// the current one may be shared with others (e.g. a manifest cache, under its previous digest)
+	manifests := make([]descriptor.Descriptor, len(rlM.Manifests), len(rlM.Manifests)+1)
+	copy(manifests, rlM.Manifests)
+	rlM.Manifests = append(manifests, mDesc)
+	mNew, err := manifest.New(manifest.WithOrig(rlM))
 	if err != nil {
 		return err
 	}
+	rl.Manifest = mNew
+	rl.Descriptors = rlM.Manifests
 	return nil
 }
 
@@ -76,23 +80,26 @@ func (rl *ReferrerList) Delete(m manifest.Manifest) error {
 	if !ok {
 		return fmt.Errorf("referrer list manifest is not an OCI index for %s", rl.Subject.CommonName())
 	}
-	// delete matching entries from the list
+	// delete matching entries from the list,
+	// building a new list and a new manifest instead of changing the current manifest in place,
+	// the current one may be shared with others (e.g. a manifest cache, under its previous digest)
 	mDesc := m.GetDescriptor()
-	found := false
-	for i := len(rlM.Manifests) - 1; i >= 0; i-- {
-		if rlM.Manifests[i].Digest == mDesc.Digest {
-			rlM.Manifests = slices.Delete(rlM.Manifests, i, i+1)
-			found = true
+	manifests := make([]descriptor.Descriptor, 0, len(rlM.Manifests))
+	for _, d := range rlM.Manifests {
+		if d.Digest != mDesc.Digest {
+			manifests = append(manifests, d)
 		}
 	}
-	if !found {
+	if len(manifests) == len(rlM.Manifests) {
 		return fmt.Errorf("subject not found in referrer list%.0w", errs.ErrNotFound)
 	}
-	rl.Descriptors = rlM.Manifests
-	err := rl.Manifest.SetOrig(rlM)
+	rlM.Manifests = manifests
+	mNew, err := manifest.New(manifest.WithOrig(rlM))
 	if err != nil {
 		return err
 	}
+	rl.Manifest = mNew
+	rl.Descriptors = rlM.Manifests
 	return nil
 }
 
